@@ -154,6 +154,21 @@ def corpus():
         cs.append(_case('chunk', None, [bytes([c]) for c in raw], True, len(t), len(m)))
         for i in range(1, len(raw)):
             cs.append(_case('chunk', None, [raw[:i], raw[i:]], True, len(t), len(m)))
+    # very long start / header lines (beyond 64 KiB and 128 KiB) cut deep inside the line
+    for ty, head, tailmsg in [
+        ('REQ', b'POST /p HTTP/1.1\r\nHost: a\r\nCookie: ' + b'c' * 70000 + b'\r\nContent-Length: 3\r\n\r\nabc', b'GET /2 HTTP/1.1\r\n\r\n'),
+        ('REQ', b'GET /' + b'p' * 140000 + b' HTTP/1.1\r\nHost: a\r\n\r\n', b''),
+        ('RES', b'HTTP/1.1 200 OK\r\nX-Long: ' + b'v' * 66000 + b'\r\nContent-Length: 0\r\n\r\n', b'HTTP/1.1 204 N\r\n'),
+    ]:
+        raw = head + tailmsg
+        line_start = raw.index(b'Cookie: ') if b'Cookie: ' in raw else (raw.index(b'X-Long: ') if b'X-Long: ' in raw else 0)
+        cs.append(_case('parse', ty, [raw], True, len(tailmsg), len(head)))
+        for off in (1, 65535, 65536, 65537, 65545, 131071, 131073):
+            cut = line_start + off
+            if 0 < cut < len(raw):
+                cs.append(_case('parse', ty, [raw[:cut], raw[cut:]], True, len(tailmsg), len(head)))
+        cs.append(_case('parse', ty, [raw[:line_start + 3], raw[line_start + 3:len(head) - 2], raw[len(head) - 2:]], True,
+                        len(tailmsg), len(head)))
     # malformed / out-of-quantifier: correspondence only
     for ty, raw in [('REQ', b'GET\r\n\r\n'), ('REQ', b'GET  HTTP/1.1\r\n\r\n'), ('RES', b'HTTP/1.1\r\n\r\n'),
                     ('REQ', b'POST / HTTP/1.1\r\nContent-Length: x\r\n\r\n'),
